@@ -48,6 +48,13 @@ package freelist
 //@   modifies cp.blockPool, cp.outstandingWork, cp.$pending, cp.file, cp.file.$open
 //@   ghost var gexists bool = false
 //@   ghost at after call os.IsNotExist#0: gexists = !$r0
+// Crash clause of C03 (flush ordering D1): an entry may reach the file handed to GC only after
+// the index update that made its location superseded is on disk, i.e. only through a commit
+// (primary, then index, then freelist). ToGC flushes the pool itself, whenever GC asks. This
+// obligation FAILS on the code as it is (finding F12, open: GC marks records deleted on disk that
+// the index on disk still points at; after a crash a key that was present at the last completed
+// flush reads as absent); listed in /verif/KNOWN_FINDINGS.txt, reproduced by /verif/findings/f12_test.go.
+//@   assert at before call freelist.FreeList.Flush#0: @C03-handover-only-committed-entries {C03} !cp.$pending
 //@   assert at before call os.Rename#0: @D7-whole-file $a0 == old(cp.file.$name) && $a1 == old(cp.file.$name) + ".gc" && !gexists
 //@   assert at before call os.Rename#0: @D7-flushed-first event("call:freelist.FreeList.Flush") == 1 && held(cp.flushLock)
 //@   internal ensures @D7-existing-untouched gexists ==> event("call:os.Rename") == 0 && event("call:freelist.FreeList.Flush") == 0 && cp.file == old(cp.file) && cp.blockPool == old(cp.blockPool)
